@@ -8,6 +8,8 @@ import (
 	"fmt"
 	"sort"
 	"sync"
+
+	"anndbverif/lib/hang"
 	"time"
 )
 
@@ -15,6 +17,7 @@ type Stats struct {
 	States, Transitions, DepthCompleted int
 	Outcomes                            map[string]int
 	Complete                            bool // false if the deadline stopped the search
+	Hung                                bool // a Build did not return (HangCPU): reported, search abandoned
 	FrontierLeft                        int
 }
 
@@ -34,6 +37,10 @@ type Config[W any, O any] struct {
 	AfterLevel func()
 	// Seen may be shared between several BFS runs (different roots).
 	Seen map[string]bool
+	// HangCPU, when set, gives up a Build after the process has burnt that much CPU time per worker since it started
+	// (lib/hang): the path is reported with key "call-does-not-return" and the search is abandoned (the
+	// goroutine of that Build is leaked and still owns its worker's world).
+	HangCPU time.Duration
 	// RootFilter, when set, restricts the operations tried from the initial state (process sharding).
 	RootFilter func(i int, o O) bool
 }
@@ -45,6 +52,27 @@ func BFS[W any, O any](c Config[W, O]) Stats {
 		seen = map[string]bool{}
 	}
 	var mu sync.Mutex
+	hung := false
+	rawBuild := c.Build
+	build := func(wi int, path []O) (w W, k, d string, ok bool) {
+		if c.HangCPU == 0 {
+			w, k, d = rawBuild(wi, path)
+			return w, k, d, true
+		}
+		ok = hang.Run(c.HangCPU*time.Duration(c.Workers), func() { w, k, d = rawBuild(wi, path) })
+		if !ok {
+			mu.Lock()
+			first := !hung
+			hung = true
+			st.Transitions++
+			if first {
+				st.Outcomes["call-does-not-return"]++
+				c.OnViolation("call-does-not-return", fmt.Sprintf("the last operation of the sequence has not returned after %v of CPU time", c.HangCPU), path)
+			}
+			mu.Unlock()
+		}
+		return
+	}
 	w0, k, d := c.Build(0, nil)
 	st.Transitions++
 	if k != "" {
@@ -78,8 +106,14 @@ func BFS[W any, O any](c Config[W, O]) Stats {
 						mu.Unlock()
 						continue
 					}
-					w, k, _ := c.Build(wi, path)
-					if k != "" {
+					mu.Lock()
+					abandoned := hung
+					mu.Unlock()
+					if abandoned {
+						continue
+					}
+					w, k, _, ok := build(wi, path)
+					if k != "" || !ok {
 						continue
 					}
 					for oi, o := range c.Enabled(w) {
@@ -87,7 +121,10 @@ func BFS[W any, O any](c Config[W, O]) Stats {
 							continue
 						}
 						np := append(append([]O{}, path...), o)
-						nw, k, desc := c.Build(wi, np)
+						nw, k, desc, ok := build(wi, np)
+						if !ok {
+							break
+						}
 						cs := ""
 						if k == "" {
 							cs = c.Canon(nw)
@@ -114,6 +151,10 @@ func BFS[W any, O any](c Config[W, O]) Stats {
 			}(wi)
 		}
 		wg.Wait()
+		if hung {
+			st.Complete, st.Hung = false, true
+			break
+		}
 		if stopped {
 			st.Complete = false
 			break
